@@ -326,7 +326,8 @@ class ExcelModel:
                 rng = Ranges.get_range(n_id, raise_anchor=False)
             except InvalidRangeName:  # Missing Reference.
                 log.warning('Missing Reference `{}`!'.format(n_id))
-                Ref(n_id, '=#REF!').compile().add(self.dsp)
+                if not self.dsp.dmap.pred.get(n_id):  # Not yet replaced.
+                    Ref(n_id, '=#REF!').compile().add(self.dsp)
                 continue
             book = _encode_path(osp.join(
                 _decode_path(rng.get('directory', '')),
@@ -338,7 +339,8 @@ class ExcelModel:
                 wk, context = self.add_sheet(rng['sheet'], context)
             except Exception as ex:  # Missing excel file or sheet.
                 log.warning('Error in loading `{}`:\n{}'.format(n_id, ex))
-                Cell(n_id, '=#REF!').compile().add(self.dsp)
+                if not self.dsp.dmap.pred.get(n_id):  # Not yet replaced.
+                    Cell(n_id, '=#REF!').compile().add(self.dsp)
                 self.books.pop(book, None)
                 continue
             formula_references = self.formula_references(context)
@@ -353,7 +355,7 @@ class ExcelModel:
                         outputs=[n_id]
                     )
                     stack.append(ref)
-                else:
+                elif not self.dsp.dmap.pred.get(n_id):  # Not yet replaced.
                     Cell(n_id, '=#REF!').compile().add(self.dsp)
                 continue
             references = self.references
